@@ -915,3 +915,222 @@ theorem removeCensoredSharded_exact {D : Type} (st : Bool) (T : List (Entry D)) 
         · simp [h3, h4]
 
 end Filter
+
+namespace Filter
+open Compress (Seq Base Exts rc minRcFlip Entry Table extend comp canonSt isPalindrome condFlip nibHas recip findId WF ExtSym)
+open Walk (Dir)
+
+/-! ### reciprocity including palindromic neighbours -/
+
+/-- reciprocity towards any present neighbour: it records the reciprocal base on the facing side — or, if it is a
+    palindrome (whose two strands coincide), possibly as seen from the other strand: complemented, on the other side -/
+def ExtSym2 {D : Type} (T : Table D) (st : Bool) : Prop :=
+  ∀ (x : Nat) (ex : Entry D) (d : Dir) (b : Base) (y : Nat) (ey : Entry D), T[x]? = some ex → has ex.exts d b →
+    findId T (canonSt st (extend ex.key b d)).1 = some y → T[y]? = some ey →
+    has ey.exts (condFlip d.flip (canonSt st (extend ex.key b d)).2) (recip ex.key d (canonSt st (extend ex.key b d)).2) ∨
+    ((!st && isPalindrome ey.key) = true ∧
+      has ey.exts (condFlip d.flip (canonSt st (extend ex.key b d)).2).flip (comp (recip ex.key d (canonSt st (extend ex.key b d)).2)))
+
+theorem ExtSym2.toExtSym {D : Type} {T : Table D} {st : Bool} (h : ExtSym2 T st) : ExtSym T st := by
+  intro x ex d b y ey hx hb hy hy' _ hpy
+  rcases h x ex d b y ey hx hb hy hy' with h1 | ⟨h1, _⟩
+  · exact h1
+  · rw [hpy] at h1; cases h1
+
+/-- an occurrence next to a palindromic k-mer is recorded by it from one strand or the other -/
+theorem occ_table_pal (K : Nat) (hK : 1 ≤ K) (reads : List (Seq × Exts × Nat)) (hb : NoBoundary reads) (sm : Summarizer)
+    (u : Seq) (d : Dir) (b : Base) (h : Occ K reads false u d b)
+    (ey : Entry Payload) (hey : ey ∈ refTable K reads sm false) (f : Bool) (hc : canonSt false u = (ey.key, f))
+    (hp : rc ey.key = ey.key) :
+    has ey.exts (condFlip d f) (if f then comp b else b) ∨ has ey.exts (condFlip d f).flip (comp (if f then comp b else b)) := by
+  obtain ⟨r, hr, i, hi, hcase⟩ := h
+  have hmem : canonObs false (win r.1 K i) (rawE r.1 K i) r.2.2 ∈ observations K reads false :=
+    (mem_observations K hK reads hb false _).mpr ⟨r, hr, i, hi, rfl⟩
+  generalize hw : win r.1 K i = w at *
+  generalize hE : rawE r.1 K i = E at *
+  have hE8 : E.val < 256 := by rw [← hE]; exact rawE_lt _ _ _
+  -- `u` is its own reverse complement, and so is the spelled k-mer
+  simp only [canonSt, Bool.false_eq_true, if_false] at hc
+  unfold minRcFlip at hc
+  have hu : u = ey.key ∧ f = true := by
+    by_cases hlt : u < rc u
+    · simp only [hlt, if_true, Prod.mk.injEq] at hc
+      obtain ⟨hk, _⟩ := hc
+      rw [hk, hp] at hlt; exact absurd hlt (seq_lt_irrefl _)
+    · simp only [hlt, if_false, Prod.mk.injEq] at hc
+      obtain ⟨hk, hf⟩ := hc
+      exact ⟨by have := congrArg rc hk; rw [Compress.rc_rc, hp] at this; exact this, hf.symm⟩
+  obtain ⟨huk, hf⟩ := hu
+  subst hf
+  have hwk : w = ey.key := by
+    rcases hcase with ⟨h1, _⟩ | ⟨_, h1, _⟩
+    · rw [← h1, huk]
+    · have : rc u = w := by rw [h1, Compress.rc_rc]
+      rw [← this, huk, hp]
+  -- the observation made at this occurrence
+  have hobs : canonObs false w E r.2.2 = (ey.key, E.rc, r.2.2) := by
+    unfold canonObs
+    simp only [Bool.false_eq_true, if_false]
+    have : ¬ w < rc w := by rw [hwk, hp]; exact seq_lt_irrefl _
+    rw [if_neg this, hwk, hp]
+  rw [hobs] at hmem
+  simp only [condFlip, if_true]
+  rcases hcase with ⟨_, hh⟩ | ⟨_, _, hh⟩
+  · left
+    rw [(entry_facts K reads sm false ey hey).2]
+    exact ⟨_, hmem, rfl, by rw [has_rc E hE8, Dir.flip_flip, comp_comp]; exact hh⟩
+  · right
+    rw [(entry_facts K reads sm false ey hey).2]
+    exact ⟨_, hmem, rfl, by rw [has_rc E hE8, Dir.flip_flip, comp_comp]; exact hh⟩
+
+/-- **reciprocity (including palindromic neighbours)** of the table built from reads -/
+theorem refTable_extSym2 (K : Nat) (hK : 1 ≤ K) (reads : List (Seq × Exts × Nat)) (hb : NoBoundary reads) (sm : Summarizer) (st : Bool) :
+    ExtSym2 (refTable K reads sm st) st := by
+  intro x ex d b y ey hx hbit hy hy'
+  have hex : ex ∈ refTable K reads sm st := List.mem_of_getElem? hx
+  have hey : ey ∈ refTable K reads sm st := List.mem_of_getElem? hy'
+  obtain ⟨ey', hy'', hkey⟩ := Compress.findId_some hy
+  rw [hy'] at hy''; cases hy''
+  have hocc := table_occ K hK reads hb sm st ex hex d b hbit
+  have hstep := occ_step K hK reads st ex.key d b hocc
+  rw [recip_eq]
+  by_cases hp : (!st && isPalindrome ey.key) = false
+  · exact Or.inl (occ_table K hK reads hb sm st (extend ex.key b d) d.flip (back ex.key d) hstep ey hey
+      (canonSt st (extend ex.key b d)).2 (by rw [hkey]) hp)
+  · have hp' : (!st && isPalindrome ey.key) = true := by simpa using hp
+    simp only [Bool.and_eq_true, Bool.not_eq_true'] at hp'
+    obtain ⟨hst, hpal⟩ := hp'
+    subst hst
+    have hrc : rc ey.key = ey.key := by
+      unfold isPalindrome at hpal
+      simp only [Bool.and_eq_true, beq_iff_eq] at hpal
+      exact hpal.2.symm
+    rcases occ_table_pal K hK reads hb sm (extend ex.key b d) d.flip (back ex.key d) hstep ey hey
+      (canonSt false (extend ex.key b d)).2 (by rw [hkey]) hrc with h1 | h1
+    · exact Or.inl h1
+    · exact Or.inr ⟨by simp [hpal], h1⟩
+
+end Filter
+
+namespace Filter
+open Compress (Seq Base Exts rc minRcFlip Entry Table extend comp canonSt isPalindrome condFlip nibHas recip findId WF ExtSym)
+open Walk (Dir)
+
+theorem minRcFlip_rc_key (x : Seq) : (minRcFlip (rc x)).1 = (minRcFlip x).1 := by
+  unfold minRcFlip
+  rw [Compress.rc_rc]
+  rcases seq_tri x (rc x) with h | h | h
+  · have : ¬ rc x < x := fun h' => seq_lt_irrefl _ (seq_lt_trans h h')
+    simp [h, this]
+  · have h1 : ¬ x < rc x := by rw [← h]; exact seq_lt_irrefl _
+    have h2 : ¬ rc x < x := by rw [← h]; exact seq_lt_irrefl _
+    simp [h1, h2, ← h]
+  · have : ¬ x < rc x := fun h' => seq_lt_irrefl _ (seq_lt_trans h h')
+    simp [h, this]
+
+/-- stepping back with the reciprocal base returns to the canonical k-mer one came from (whether or not it is a palindrome) -/
+theorem canon_back_key {st : Bool} {x : Seq} {b : Base} {d : Dir} (hx : x ≠ []) (hc : st = false → ¬ (rc x < x)) :
+    (canonSt st (extend (canonSt st (extend x b d)).1 (recip x d (canonSt st (extend x b d)).2)
+      (condFlip d.flip (canonSt st (extend x b d)).2))).1 = x := by
+  have hmin : st = false → (minRcFlip x).1 = x := by
+    intro hst
+    unfold minRcFlip
+    by_cases h : x < rc x
+    · simp [h]
+    · have : x = rc x := by
+        rcases seq_tri x (rc x) with h' | h' | h'
+        · exact absurd h' h
+        · exact h'
+        · exact absurd h' (hc hst)
+      rw [if_neg h]; exact this.symm
+  cases st with
+  | true =>
+    simp only [canonSt, if_true, condFlip, Bool.false_eq_true, if_false]
+    rw [Compress.extend_back x b d hx]
+  | false =>
+    simp only [canonSt, Bool.false_eq_true, if_false]
+    unfold minRcFlip
+    by_cases hlt : extend x b d < rc (extend x b d)
+    · simp only [hlt, if_true, condFlip, Bool.false_eq_true, if_false]
+      rw [Compress.extend_back x b d hx]
+      exact hmin rfl
+    · simp only [hlt, if_false, condFlip, if_true, Dir.flip_flip]
+      rw [Compress.extend_back_flip x b d hx]
+      have := minRcFlip_rc_key x
+      unfold minRcFlip at this
+      rw [this]
+      exact hmin rfl
+
+theorem extend_comp_flip (k : Seq) (r : Base) (s : Dir) : extend k (comp r) s.flip = rc (extend (rc k) r s) := by
+  cases s with
+  | L => show Compress.extendRight k (comp r) = rc (Compress.extendLeft (rc k) r)
+         rw [Compress.rc_extendLeft, Compress.rc_rc]
+  | R => show Compress.extendLeft k (comp r) = rc (Compress.extendRight (rc k) r)
+         rw [Compress.rc_extendRight, Compress.rc_rc]
+
+/-- pruning keeps reciprocity (including towards palindromes) -/
+theorem extSym2_removeCensored {D : Type} (st : Bool) (T : List (Entry D)) (K : Nat) (wf : WF T K st) (hes : ExtSym2 T st) :
+    ExtSym2 (removeCensoredExts st T) st := by
+  intro x ex d b y ey hx hbit hy hy'
+  obtain ⟨ex0, hx0, hkx, _, hex⟩ := removeCensored_getElem? st T x ex hx
+  obtain ⟨ey0, hy0, hky, _, hey⟩ := removeCensored_getElem? st T y ey hy'
+  rw [findId_removeCensored, hkx] at hy
+  have hb0 : has ex0.exts d b := by
+    rw [hex, has_keepBits] at hbit; exact hbit.1
+  rw [hkx]
+  obtain ⟨ey', hy'', hkey⟩ := Compress.findId_some hy
+  rw [hy0] at hy''; cases hy''
+  have hne : ex0.key ≠ [] := by
+    intro e; have := wf.len x ex0 hx0; rw [e] at this; simp at this; have := wf.kpos; omega
+  have hback := canon_back_key (st := st) (x := ex0.key) (b := b) (d := d) hne (fun hst => wf.canon hst x ex0 hx0)
+  have hpres : ex0.key ∈ T.map (·.key) := List.mem_map.mpr ⟨ex0, List.mem_of_getElem? hx0, rfl⟩
+  rcases hes x ex0 d b y ey0 hx0 hb0 hy hy0 with h1 | ⟨hp, h1⟩
+  · left
+    rw [hey, has_keepBits]
+    refine ⟨h1, ?_⟩
+    rw [extTarget_eq, hkey, hback]
+    simpa using hpres
+  · right
+    refine ⟨by rw [hky]; exact hp, ?_⟩
+    rw [hey, has_keepBits]
+    refine ⟨h1, ?_⟩
+    -- the same target, read from the other strand of the palindrome
+    simp only [Bool.and_eq_true, Bool.not_eq_true'] at hp
+    obtain ⟨hst, hpal⟩ := hp
+    have hrc : rc ey0.key = ey0.key := by
+      unfold isPalindrome at hpal
+      simp only [Bool.and_eq_true, beq_iff_eq] at hpal
+      exact hpal.2.symm
+    rw [extTarget_eq, extend_comp_flip, hrc]
+    subst hst
+    have hcan : ∀ z, (canonSt false (rc z)).1 = (canonSt false z).1 := by
+      intro z
+      simp only [canonSt, Bool.false_eq_true, if_false]
+      exact minRcFlip_rc_key z
+    rw [hcan, hkey, hback]
+    simpa using hpres
+
+/-- re-ordering keeps reciprocity (including towards palindromes) -/
+theorem extSym2_perm {D : Type} (st : Bool) (T1 T2 : List (Entry D)) (K : Nat) (hp : T2.Perm T1) (wf : WF T1 K st) (hes : ExtSym2 T1 st) :
+    ExtSym2 T2 st := by
+  intro x ex d b y ey hx hbit hy hy'
+  obtain ⟨x1, hx1⟩ := mem_getElem? T1 ex (hp.mem_iff.mp (List.mem_of_getElem? hx))
+  obtain ⟨y1, hy1⟩ := mem_getElem? T1 ey (hp.mem_iff.mp (List.mem_of_getElem? hy'))
+  obtain ⟨ey', hy'', hkey⟩ := Compress.findId_some hy
+  rw [hy'] at hy''; cases hy''
+  have hf : findId T1 (canonSt st (extend ex.key b d)).1 = some y1 := by
+    rw [← hkey]; exact Compress.findId_self wf hy1
+  exact hes x1 ex d b y1 ey hx1 hbit hf hy1
+
+/-- tables from reads: well-formed, reciprocal towards every present neighbour, and closed (every recorded extension leads
+    to a present k-mer) -/
+theorem pipeline_table_ok2 (K : Nat) (hK : 1 ≤ K) (reads : List (Seq × Exts × Nat)) (hb : NoBoundary reads) (sm : Summarizer) (st : Bool)
+    (T : List (Entry Payload)) (hp : T.Perm (removeCensoredExts st (refTable K reads sm st))) :
+    WF T K st ∧ ExtSym2 T st := by
+  have w0 := refTable_wf K hK reads hb sm st
+  have s0 := refTable_extSym2 K hK reads hb sm st
+  have w1 := wf_removeCensored st _ K w0
+  have s1 := extSym2_removeCensored st _ K w0 s0
+  exact ⟨wf_perm st _ T K hp w1, extSym2_perm st _ T K hp w1 s1⟩
+
+end Filter
